@@ -185,7 +185,7 @@ Scalar MASA::cp_normal<Scalar>::eval_cen_mom(int k)
 
   if(k%2 == 0 ) // k is even!
     {
-      moment = pow(sigma,k) * (factorial(k) / pow(Scalar(2),k/2) * factorial(k/2));
+      moment = pow(sigma,k) * (factorial(k) / (pow(Scalar(2),k/2) * factorial(k/2)));
     }
   else // k is odd
     {
